@@ -26,7 +26,7 @@ struct ProbeNode {
 }
 
 fn weight(id: usize) -> f32 {
-    (1u32 << (3 * id)) as f32 // 8^id: path-count multiples stay exact in f32
+    3u32.pow(id as u32) as f32 // 3^id: path-count multiples stay exact in f32 for every enumerated graph
 }
 
 impl Node for ProbeNode {
@@ -90,9 +90,9 @@ impl Case {
 /// vacancy patterns for the stable graph: where dummy nodes are inserted
 /// (and later removed) relative to the real ones. bit i = a dummy before real
 /// node i; bit n = a dummy after the last.
-fn vacancy_patterns(n: usize) -> Vec<u8> {
+fn vacancy_patterns(n: usize) -> Vec<u16> {
     // before the first, between (after the first), after the last, and all of them
-    let mut v = vec![1u8, 1 << n, (1 << (n + 1)) - 1];
+    let mut v = vec![1u16, 1 << n, (1 << (n + 1)) - 1];
     if n >= 2 {
         v.push(2);
     }
@@ -121,7 +121,7 @@ fn build_graph(c: &Case) -> Built<G1> {
     Built { g, ix, log, call }
 }
 
-fn build_stable(c: &Case, vac: Option<u8>) -> Built<G2> {
+fn build_stable(c: &Case, vac: Option<u16>) -> Built<G2> {
     let log = Rc::new(RefCell::new(Vec::new()));
     let call = Rc::new(RefCell::new(0));
     let mut g = G2::with_capacity(c.n + 4, 8);
@@ -379,7 +379,7 @@ fn main() {
         let hist: Vec<Case> = v["history"].as_array().map(|a| a.iter().filter_map(Case::from_json).collect()).unwrap_or_default();
         ctx.finish_replay(run_with_history(&hist, &c));
     }
-    ctx.rule("every directed multigraph on n<=3 nodes with multiplicity 0..2 per ordered pair (self pairs included), every digraph with loops on 4 nodes (thorough: every loop-free digraph on 5 nodes) x every output node x container in {Graph, StableGraph, StableGraph with vacancies before/between/after/all (dummy nodes wired in and removed)} x 2 consecutive process calls on a processor reused across a whole chunk of the enumeration (256 graphs x outputs x containers; a violation's replay artefact carries the shortest suffix of that history with which it reproduces on a fresh processor); instrumented nodes log (node, call, own buffer ptr, per input ptr/len/value/call#); oracle: independent reverse reachability, multiset of in-edges by buffer identity, no self-alias, topological order and functional evaluation when the upstream subgraph is acyclic, sources()/sinks() == existing nodes without in/out edges; non-trivial = at least one edge, distinct by (graph, output, container)");
+    ctx.rule("every directed multigraph on n<=3 nodes with multiplicity 0..2 per ordered pair (self pairs included), every digraph with loops on 4 nodes (thorough: every loop-free digraph on 5 nodes) x every output node x container in {Graph, StableGraph, StableGraph with vacancies before/between/after/all (dummy nodes wired in and removed)} x 2 consecutive process calls on a processor reused across a whole chunk of the enumeration (256 graphs x outputs x containers; a violation's replay artefact carries the shortest suffix of that history with which it reproduces on a fresh processor); instrumented nodes log (node, call, own buffer ptr, per input ptr/len/value/call#); oracle: independent reverse reachability, multiset of in-edges by buffer identity, no self-alias, topological order and functional evaluation when the upstream subgraph is acyclic, sources()/sinks() == existing nodes without in/out edges; plus scale probes: 12 structured families (chains, stars, rings, complete DAG / digraph, tree, double edges, ...) on 5..=9 nodes; non-trivial = at least one edge, distinct by (graph, output, container)");
     // enumerate
     let mut graphs: Vec<(usize, Vec<u8>)> = Vec::new();
     for n in 1..=3usize {
@@ -411,6 +411,33 @@ fn main() {
             graphs.push((5, m));
         }
     }
+    // scale probes: structured families on 5..=9 nodes (not exhaustive over shapes; every output node,
+    // every container and both calls for each member)
+    let mut fam_count = 0usize;
+    for n in 5..=9usize {
+        let mut fams: Vec<Vec<(usize, usize)>> = Vec::new();
+        fams.push((0..n - 1).map(|i| (i, i + 1)).collect()); // chain
+        fams.push((0..n - 1).map(|i| (i + 1, i)).collect()); // reversed chain
+        fams.push((1..n).map(|i| (i, 0)).collect()); // star into 0
+        fams.push((1..n).map(|i| (0, i)).collect()); // star out of 0
+        fams.push((0..n).map(|i| (i, (i + 1) % n)).collect()); // ring
+        fams.push((0..n).flat_map(|i| [(i, (i + 1) % n), (i, (i + 2) % n)]).collect()); // ring with chords
+        fams.push((0..n).flat_map(|a| (a + 1..n).map(move |b| (a, b))).collect()); // complete DAG
+        fams.push((0..n).flat_map(|a| (0..n).map(move |b| (a, b))).collect()); // complete digraph with loops
+        fams.push((1..n).map(|i| (i, (i - 1) / 2)).collect()); // binary tree towards the root
+        fams.push((0..n - 1).flat_map(|i| [(i, i + 1), (i, i + 1)]).collect()); // chain of double edges
+        fams.push((0..n - 2).map(|i| (i, i + 1)).chain([(n - 1, n - 1)]).collect()); // chain plus an isolated self-loop node
+        fams.push((0..n - 1).flat_map(|i| [(i, i + 1), (i + 1, i)]).collect()); // bidirectional chain
+        for e in fams {
+            let mut m = vec![0u8; n * n];
+            for (a, b) in e {
+                m[a * n + b] = (m[a * n + b] + 1).min(2);
+            }
+            graphs.push((n, m));
+            fam_count += 1;
+        }
+    }
+    ctx.set("scale_probe_graphs", json!(fam_count));
     ctx.set("graphs", json!(graphs.len()));
     let evals = AtomicU64::new(0);
     let calls = AtomicU64::new(0);
